@@ -27,6 +27,13 @@ import Plotink.Gen.getLengthInches
 import Plotink.Gen.subdivideCubicPath
 import Plotink.Gen.rtree_Index
 import Plotink.Gen.grid_Index
+import Plotink.Gen.square_dist
+import Plotink.Gen.distance
+import Plotink.Gen.dotProductXY
+import Plotink.Gen.position_scale
+import Plotink.Gen.points_near
+import Plotink.Gen.vInitial_VF_A_Dx
+import Plotink.Gen.vFinal_Vi_A_Dx
 /-! `gen <function> <dps> <args…>`: run a *generated* definition with the concrete rounding instance
 (`Rounding.ieee`), or with `Rounding.exact` when `<dps>` is written `x<dps>`.
 Arguments: `parseVal` syntax, plus nested lists `[[f1/2,0],[1,2]]` (no blanks) and strings `s<code points>`
@@ -118,6 +125,13 @@ def genHandle (toks : List String) : String :=
       | "moveDistLMA", [a, b, c, d] => Gen.moveDistLMA R p a b c d
       | "moveTimeLM", [a, b, c] => Gen.moveTimeLM R p a b c
       | "checkLimits", [a, b, c] => Gen.checkLimits R p a b c
+      | "distance", [a, b] => Gen.distance R p a b
+      | "dotProductXY", [a, b] => Gen.dotProductXY R p a b
+      | "position_scale", [a, b, c] => Gen.position_scale R p a b c
+      | "points_near", [a, b, c] => Gen.points_near R p a b c
+      | "square_dist", [a, b] => Gen.square_dist R p a b
+      | "vInitial_VF_A_Dx", [a, b, c] => Gen.vInitial_VF_A_Dx R p a b c
+      | "vFinal_Vi_A_Dx", [a, b, c] => Gen.vFinal_Vi_A_Dx R p a b c
       | "checkLimitsTol", [a, b, c, d] => Gen.checkLimitsTol R p a b c d
       | "constrainLimits", [a, b, c] => Gen.constrainLimits R p a b c
       | "point_in_bounds", [x, y, x0, y0, x1, y1, t] =>
